@@ -96,7 +96,7 @@ func (ex *Exec) applicableKnown(kind, msg, pos string) (preds []string, ids []*K
 func (w *Worker) hardCheck(pc []*Term, more []*Term, syms []*Term, extra string) (Result, map[string]uint64, int64) {
 	t0 := time.Now()
 	r, m := w.solver.CheckModel(pc, more, syms, extra)
-	if r == Unknown && !w.cfg.NoFallback {
+	if r == Unknown && !w.cfg.NoFallback && !(!w.cfg.Deadline.IsZero() && time.Since(w.cfg.Deadline) > 0) {
 		to := w.cfg.HardTimeoutS
 		if w.shortFallback > 0 {
 			to = w.shortFallback
